@@ -493,4 +493,70 @@ theorem find_famsAfter_none (n : Bytes) : ∀ (ops : List Spec.Op) (fams : List 
     exact find_famsAfter_none n ops _ (find_validate_none fams n o.1 o.2.1 o.2.2 h (hn o (by simp)))
       (fun o' ho' => hn o' (by simp [ho']))
 
+/-! ### Collect: one help and type per family -/
+
+theorem emitPoint_fields {esc : Bytes → Bytes} {legacy : Bool} {name help : Bytes} {typ : MType} {extra : List KV}
+    {p : Point} {e : Emitted} (h : emitPoint esc legacy name help typ extra p = some e) :
+    e.name = name ∧ e.help = help ∧ e.typ = typ := by
+  unfold emitPoint at h
+  simp only at h
+  split at h
+  · cases h
+  · cases hp : p.payload with
+    | num q => simp only [hp, Option.some.injEq] at h; subst h; exact ⟨rfl, rfl, rfl⟩
+    | hist c sq bs cs => simp only [hp, Option.some.injEq] at h; subst h; exact ⟨rfl, rfl, rfl⟩
+    | expo sq dp =>
+      simp only [hp, Option.map_eq_some_iff] at h
+      obtain ⟨n, _, hn⟩ := h
+      subst hn; exact ⟨rfl, rfl, rfl⟩
+
+/-- when not dropped, the cache holds exactly (name, returned help, type) for the family -/
+theorem validate_entry (fams : List Fam) (n d : Bytes) (t : MType) :
+    (validate fams n d t).2.1 = false →
+    (validate fams n d t).1.find? (fun f => f.name == n) = some ⟨n, (validate fams n d t).2.2, t⟩ := by
+  unfold validate
+  cases hf : fams.find? (fun f => f.name == n) with
+  | none => intro _; simp [List.find?_append, hf]
+  | some emf =>
+    have hname : emf.name = n := by
+      have := List.find?_some hf
+      simpa using this
+    simp only
+    by_cases ht : emf.typ = t
+    · by_cases hd : emf.help = d
+      · intro _
+        simp only [ht, hd, bne_self_eq_false, Bool.false_eq_true, if_false, hf]
+        cases emf; simp_all
+      · intro _
+        have hd' : (emf.help != d) = true := by simp [hd]
+        simp only [ht, bne_self_eq_false, Bool.false_eq_true, if_false, hd', if_true, hf]
+        cases emf; simp_all
+    · have ht' : (emf.typ != t) = true := by simp [ht]
+      simp [ht']
+
+theorem collectInsts_find_some (esc : Bytes → Bytes) (cfg : Cfg) (extra : List KV) (n : Bytes) (f : Fam) :
+    ∀ (insts : List Inst) (fams : List Fam), fams.find? (fun f => f.name == n) = some f →
+      (collectInsts esc cfg extra fams insts).1.find? (fun f => f.name == n) = some f := by
+  intro insts
+  induction insts with
+  | nil => intro fams h; simpa [collectInsts] using h
+  | cons i rest ih =>
+    intro fams h
+    unfold collectInsts
+    simp only
+    cases hn : getName esc cfg i.name i.unit i.dtype.mtype with
+    | none => simpa using h
+    | some name =>
+      simp only
+      have hv := find_validate_some fams n name i.desc i.dtype.mtype f h
+      cases hvv : validate fams name i.desc i.dtype.mtype with
+      | mk fams' dh =>
+        cases dh with
+        | mk drop help =>
+          rw [hvv] at hv
+          simp only
+          cases drop with
+          | true => simp only [if_true]; exact ih fams' hv
+          | false => simp only [Bool.false_eq_true, if_false]; exact ih fams' hv
+
 end Otel.C18
